@@ -816,6 +816,24 @@ def r3_13(F, R):
                             continue
                         seen.add(l)
                         ds = D.defs.get(l, [])
+                        if not ds and 1 <= l <= fn.argc and not ("{closure" in fn.name and l == 1):
+                            # a constructor-style helper that is handed the code: every caller in the lexer must hand it a fresh lookup
+                            callers = []
+                            for g in F.fns.values():
+                                if not g.name.startswith("texlang::token::lexer::") or "::tests::" in g.name:
+                                    continue
+                                for gb, gt in g.calls():
+                                    c = gt.get("callee") or {}
+                                    if fn.id in (c.get("id"), c.get("rid")) and len(gt.get("args") or []) >= l:
+                                        callers.append((g, gt))
+                            if not callers:
+                                bad.append("an argument (_%d) of a function nobody in the lexer calls" % l)
+                            from .common import producers
+                            for g, gt in callers:
+                                pr = producers(g, Defs(g), gt["args"][l - 1])
+                                if not pr or not all(tag == "call" and (name.endswith("Config::cat_code") or name.endswith("::cat_code")) for tag, name, ty in pr):
+                                    bad.append("an argument that %s does not take from a cat_code lookup" % g.name)
+                            continue
                         if not ds:
                             bad.append("an argument or captured value (_%d)" % l)
                         for d in ds:
